@@ -18,7 +18,7 @@ CONFIGS = [(m, t) for m in range(1, 8) for t in range(0, (m + 1) // 2) if 2 * t 
 
 
 def shards(tier, seed):
-    out = [{'name': f'm{m}t{t}', 'm': m, 't': t, 'seeds': 3 if tier == 'quick' else 150} for (m, t) in CONFIGS]
+    out = [{'name': f'm{m}t{t}', 'm': m, 't': t, 'seeds': 4 if tier == 'quick' else 150} for (m, t) in CONFIGS]
     out.append({'name': 'realnet', 'kind': 'realnet', 'cfgs': [[2, 0], [3, 1], [5, 2], [4, 1]] if tier == 'quick' else [list(c) for c in CONFIGS if c[0] > 1]})
     return out
 
@@ -99,7 +99,7 @@ def run(shard, rec):
                 continue
             # how the runtimes arrive at threshold t: constructed with it, assigned before start(), or after an earlier session at another threshold
             others = [x for x in range(0, (m + 1) // 2) if 2 * x < m]
-            hist = [None, ('assign', rng.choice(others)), ('session', rng.choice(others))][s % 3] if m > 1 else None
+            hist = [None, ('assign', rng.choice(others)), ('session', rng.choice(others)), ('restart', t)][s % 4] if m > 1 else None
             w = sim.World(m, t, False, seed=sseed, policy=policy, refuse_prob=0.2, history=hist)
             w.run(program)
             rec.count('worlds_with_threshold_history', int(hist is not None))
